@@ -138,7 +138,15 @@ func init() {
 			e.Unknown("utils.EncodeJSONFile")
 		}
 		e.P("/-- utils/io.go EncodeJSONFile: its file-system operations and crash points on the success path, in source order -/")
-		e.P("def encodeJSONFileProg : List String := %s", LeanStrList(prog))
+		var triples []string
+		for _, o := range prog {
+			f := strings.Fields(o)
+			for len(f) < 3 {
+				f = append(f, "")
+			}
+			triples = append(triples, fmt.Sprintf("(%s, %s, %s)", LeanStr(f[0]), LeanStr(f[1]), LeanStr(f[2])))
+		}
+		e.P("def encodeJSONFileProg : List (String × String × String) := [%s]", strings.Join(triples, ", "))
 
 		// ---------- the two tables ----------
 		type tbl struct{ file, recv, v, lean string }
